@@ -5,4 +5,5 @@ CONSTANTS
  Dev = "parTrunc"
  FixedOrder = TRUE
 INVARIANT RoundTripI
+INVARIANT FastAgrees
 CHECK_DEADLOCK FALSE
